@@ -360,6 +360,29 @@ theorem nothing_left_behind {cfg : Cfg} {srcIds : Nat → List Nat} {contIds : L
             exact hno j hj
           · cases hst
 
+/-! ## The task space at the start of the next iteration (with and without `--task-plot`) -/
+
+/-- `next_iteration_starts_clean`: after the task reset `_tasks->clear()` no slot of the task space is in
+use, in both life-cycle modes (tasks released when executed / `--task-plot`: nothing released during the
+iteration), whatever the photon loop left -/
+theorem next_iteration_starts_clean (plot : Bool) (executed : Nat → Bool) (s : State) (t : Nat) :
+    spaceClear (lockedAtLoopEnd plot executed s) t = false := rfl
+
+/-- without `--task-plot` the worker loop itself leaves no slot locked (so even the cheaper
+`clear_fast` would do) ... -/
+theorem loop_end_clean_without_plot {cfg : Cfg} {srcIds : Nat → List Nat} {contIds : List Nat} (h0 : Start cfg srcIds contIds)
+    {ls : List LLabel} {s : LState} (hrun : lrun cfg (linit srcIds contIds) ls = some s)
+    (hall : ∀ i, s.th i = .exited ∨ s.th i = .start) (hex : ∃ i, s.th i = .exited) (executed : Nat → Bool) (t : Nat) :
+    spaceClearFast (lockedAtLoopEnd false executed s.p) t = false := by
+  have := (nothing_left_behind h0 hrun hall hex).2.2.1 t
+  simp [spaceClearFast, lockedAtLoopEnd, this]
+
+/-- ... but with `--task-plot` `clear_fast` leaves every executed task locked for the next iteration:
+the full reset is necessary there -/
+theorem clear_fast_leaks_with_plot (executed : Nat → Bool) (s : State) (t : Nat) (ht : executed t = true) :
+    spaceClearFast (lockedAtLoopEnd true executed s) t = true := by
+  simp [spaceClearFast, lockedAtLoopEnd, ht]
+
 /-! ## Non-vacuity: a complete small iteration (re-emission and a premature launch included) -/
 
 /-- one subgrid without neighbours (direction INSIDE only), one source with 3 packets, re-emission on -/
